@@ -174,6 +174,9 @@ def run(ctx):
                     ctx.counterexample('%s(<%d characters: %r...>, %s) raised %s: %s' % (api, len(pt), pt[:12], corr.flag_names(fb), type(e).__name__, str(e)[:80]),
                                        {'api': api, 'pattern': pt, 'pattern_length': len(pt), 'bytes': isb, 'flags': corr.flag_names(fb)})
     ctx.counted('long deeply nested patterns', ndeep, ndeep, [{'pattern': "'{a,' * 700 + 'b' + '}' * 700", 'flags': 'BRACE'}])
+    from props import glue
+    glue.odd_os_states(ctx)
+    glue.wcmatch_every_flag(ctx)
     common.replay_witnesses(ctx, [])
     return ctx.finish(RULE)
 
